@@ -662,7 +662,9 @@ Definition encodeTMS (t : tms) : json := JObj (collapse (tms_fields t)).
 (** ** pointindex.IsQuadTree *)
 Inductive verdict :=
 | Accept
-| Reject (check : nat)   (* which check failed: index into gen_quadtree_checks; 10 = strconv.Atoi error;
+| Reject (check : nat)   (* which check failed: index into gen_quadtree_checks (the distinct messages of IsQuadTree:
+                            4 = "tile matrix IDs should be a range with step 1 starting with 0" is returned both for a
+                            first id that is not 0 and for a step that is not 1); 10 = strconv.Atoi error;
                             11 = MatrixBoundingBox error (no matrix 0 / axis order unknown);
                             12 = no tile matrices requested; 13 = a requested id is not in the set *)
 | VPanic.
@@ -736,7 +738,9 @@ Fixpoint iqt_loop (prev : option (Z * tileMatrix)) (l : list (Z * tileMatrix)) :
       | Some c => Reject c
       | None =>
           match prev with
-          | None => iqt_loop (Some (k, m)) r
+          | None =>
+              (* since the repair of F22 (/repo fix-quadtree): the first tile matrix must be tile matrix 0 *)
+              if negb (k =? 0) then Reject 4 else iqt_loop (Some (k, m)) r
           | Some (pk, pm) =>
               match check_pair pk pm k m with
               | Accept => iqt_loop (Some (k, m)) r
